@@ -1,7 +1,8 @@
 """R24: a bounds guard is not computed in a narrower type than the bound.
 
 Pattern: a relational comparison one side of which is a 64-bit quantity (a size) and the other side a
-`+`, `*` or `<<` of 32-bit type that is widened only *after* the arithmetic
+`+`, `*` or `<<` of 32-bit type that is widened only *after* the arithmetic (directly, or through a 64-bit
+local whose only value it is: `size_t entry = 4 + n; if (remaining < entry)`)
     uint32_t n = read_u32(p);  if (4 + n > input_size) return ERR;      // 4 + n wraps for n >= 2^32 - 4
 The guard then admits exactly the values it exists to refuse. The rule decides each such site:
   ok            every non-constant operand is bounded: narrower than 32 bits, masked, a remainder, or
@@ -34,19 +35,50 @@ def _unparen(n):
     return n
 
 
+def _widened_arith(side):
+    s = _unparen(side)
+    if s is None or s.k != "ImplicitCastExpr" or _width(s.t) != 64 or not s.c:
+        return None
+    y = _unparen(s.c[0])
+    if y is not None and y.k == "BinaryOperator" and y.op in ("+", "*", "<<") and _width(y.t) == 32 and y.cv is None:
+        return y
+    return None
+
+
 def sites(fn):
-    """[(comparison, widened arithmetic node)]"""
+    """[(comparison, widened arithmetic node)]: the arithmetic is an operand of the comparison, or the only
+    value of a 64-bit local that is an operand of the comparison."""
     out = []
+    carried = {}        # decl of a 64-bit local -> widened arithmetic that is its only definition
+    ndefs = {}
+    for n in fn.body.walk():
+        if n.k == "DeclStmt":
+            for dd, init in zip(n.get("decls", []), n.c):
+                if init is not None:
+                    ndefs[dd.get("d")] = ndefs.get(dd.get("d"), 0) + 1
+                    y = _widened_arith(init)
+                    if y is not None:
+                        carried[dd.get("d")] = y
+        elif n.k in ("BinaryOperator", "CompoundAssignOperator") and (n.op == "=" or n.op.endswith("=") and n.op not in ("==", "!=", "<=", ">=")):
+            t = n.c[0].strip_casts()
+            if t is not None and t.k == "DeclRefExpr":
+                ndefs[t.get("d")] = ndefs.get(t.get("d"), 0) + 1
+        elif n.k == "UnaryOperator" and n.op in ("++", "--"):
+            t = n.c[0].strip_casts()
+            if t is not None and t.k == "DeclRefExpr":
+                ndefs[t.get("d")] = ndefs.get(t.get("d"), 0) + 1
+    carried = {d: y for d, y in carried.items() if ndefs.get(d) == 1}
     for x in fn.body.walk():
         if x.k != "BinaryOperator" or x.op not in ("<", "<=", ">", ">="):
             continue
         for side in x.c:
-            s = _unparen(side)
-            if s is None or s.k != "ImplicitCastExpr" or _width(s.t) != 64 or not s.c:
-                continue
-            y = _unparen(s.c[0])
-            if y is not None and y.k == "BinaryOperator" and y.op in ("+", "*", "<<") and _width(y.t) == 32 and y.cv is None:
+            y = _widened_arith(side)
+            if y is not None:
                 out.append((x, y))
+                continue
+            s = side.strip_casts() if side is not None else None
+            if s is not None and s.k == "DeclRefExpr" and s.get("dk") == "local" and s.get("d") in carried:
+                out.append((x, carried[s.get("d")]))
     return out
 
 
@@ -134,7 +166,7 @@ def check(ctx, relfiles, rule="R24.narrow-guard", key_prefix="narrow-guard"):
                             return (e.k == "BinaryOperator" and e.op in ("<", "<=", ">", ">=") and e.i != cmp_.i
                                     and any(z.k == "DeclRefExpr" and z.get("d") == d for z in e.walk())
                                     and not any(z.i == cmp_.i for z in e.walk()))
-                        path = find_path_avoiding(fn.cfg, tests, lambda e: e.i == cmp_.i)
+                        path = find_path_avoiding(fn.cfg, tests, lambda e: e.i == y.i)
                         if path is None:
                             continue        # tested on every path
                         if x.get("dk") == "local" and _from_input(fn, d):
@@ -154,4 +186,87 @@ def check(ctx, relfiles, rule="R24.narrow-guard", key_prefix="narrow-guard"):
                     ctx.bad(rule, key, P.where(cmp_), what, detail, witness=wit)
                 else:
                     ctx.inconclusive(rule, key, P.where(cmp_), what, detail)
+    return n
+
+
+# ---- R24b: an int-typed byte assembly is not sign-extended when it is widened to 64 bits
+UNSIGNED_NARROW = {"unsigned char": 8, "uint8_t": 8, "unsigned short": 16, "uint16_t": 16, "_Bool": 1, "bool": 1}
+
+
+def _maxval(e):
+    """Upper bound of a non-negative int expression built from promoted narrow unsigned values, or None."""
+    e = _unparen(e)
+    if e is None:
+        return None
+    if e.cv is not None:
+        return e.cv if e.cv >= 0 else None
+    if e.k in ("ImplicitCastExpr", "CStyleCastExpr") and e.c:
+        inner = _unparen(e.c[0])
+        w = UNSIGNED_NARROW.get(_bt(inner.t)) if inner is not None else None
+        if w is not None:
+            return (1 << w) - 1
+        if _bt(e.t) == _bt(inner.t) or e.k == "ImplicitCastExpr":
+            w2 = UNSIGNED_NARROW.get(_bt(e.t))
+            m = _maxval(inner)
+            if w2 is not None:
+                return min(m, (1 << w2) - 1) if m is not None else (1 << w2) - 1
+            return m
+        return None
+    if UNSIGNED_NARROW.get(_bt(e.t)) is not None:
+        return (1 << UNSIGNED_NARROW[_bt(e.t)]) - 1
+    if e.k == "BinaryOperator":
+        l, r = _maxval(e.c[0]), _maxval(e.c[1])
+        if e.op == "<<" and l is not None and e.c[1].cv is not None:
+            return l << e.c[1].cv
+        if e.op == ">>" and l is not None and e.c[1].cv is not None:
+            return l >> e.c[1].cv
+        if e.op == "&":
+            c = [v for v in (l, r) if v is not None]
+            return min(c) if c else None
+        if l is None or r is None:
+            return None
+        if e.op in ("|", "^"):
+            return (1 << max(l, r).bit_length()) - 1
+        if e.op == "+":
+            return l + r
+        if e.op == "*":
+            return l * r
+    if e.k == "ConditionalOperator" and len(e.c) == 3:
+        a, b = _maxval(e.c[1]), _maxval(e.c[2])
+        return max(a, b) if a is not None and b is not None else None
+    return None
+
+
+def signext_sites(fn):
+    out = []
+    for x in fn.body.walk():
+        if x.k in ("ImplicitCastExpr", "CStyleCastExpr") and _width(x.t) == 64 and x.c and x.c[0] is not None:
+            y = _unparen(x.c[0])
+            if y is not None and _bt(y.t) == "int" and y.cv is None and any(
+                    z.k == "BinaryOperator" and z.op == "<<" and z.c[1].cv is not None and z.c[0].cv is None for z in y.walk()):
+                out.append((x, y))
+    return out
+
+
+def check_signext(ctx, relfiles, rule="R24.sign-extension", key_prefix="sign-extension"):
+    """A shift tree of type int (promoted bytes) that is widened to 64 bits keeps bit 31 clear: otherwise the
+    widening copies bit 31 into bits 32..63 (`p[3] << 24` with p[3] >= 0x80)."""
+    P = ctx.P
+    n = 0
+    for rf in relfiles:
+        for fn in P.funcs_in(rf):
+            if fn.body is None:
+                continue
+            for idx, (x, y) in enumerate(signext_sites(fn)):
+                n += 1
+                key = "%s|%s:%s|L%d" % (key_prefix, rf, fn.name, idx)
+                what = "the int expression %s cannot have bit 31 set when it is widened to %s" % (src(y)[:80], _bt(x.t))
+                m = _maxval(y)
+                if m is None:
+                    ctx.inconclusive(rule, key, P.where(x), what, "the rule cannot bound the expression")
+                elif m >= (1 << 31):
+                    ctx.bad(rule, key, P.where(x), what, "with every narrow operand at its maximum the value reaches %#x: bit 31 is copied into bits 32..63" % m,
+                            witness={"max": m})
+                else:
+                    ctx.ok(rule, key, P.where(x), what, "maximum %#x" % m)
     return n
